@@ -1,7 +1,6 @@
 package main
 
 import (
-	"go/token"
 	"go/types"
 	"strconv"
 	"strings"
@@ -135,11 +134,6 @@ func (fa *FuncAnalysis) provablyNonNil(v ssa.Value, at ssa.Instruction, depth in
 		return x.Value != nil
 	case *ssa.MakeInterface:
 		return true
-	case *ssa.Call:
-		k := CalleeKey(x.Common())
-		if isErrCtor(k) {
-			return true
-		}
 	case *ssa.Phi:
 		for _, ed := range x.Edges {
 			if !fa.provablyNonNil(ed, at, depth+1) {
@@ -147,15 +141,24 @@ func (fa *FuncAnalysis) provablyNonNil(v ssa.Value, at ssa.Instruction, depth in
 			}
 		}
 		return len(x.Edges) > 0
-	case *ssa.UnOp:
-		if x.Op == token.MUL {
-			if g, ok := x.X.(*ssa.Global); ok && strings.HasPrefix(g.Name(), "Err") {
-				return true // registered sentinel error variable
-			}
+	}
+	t := fa.Term(v)
+	// the value itself (seen through local variables) is an error constructor or a registered sentinel
+	if (t.Op == "call" || t.Op == "ncall") && isErrCtor(t.Name) {
+		return true
+	}
+	if t.Op == "global" && strings.Contains(t.Name, ".Err") {
+		return true
+	}
+	if t.Op == "const" && t.Name != "nil" {
+		return true
+	}
+	if t.Op == "phi" {
+		if p, ok := t.Instr.(*ssa.Phi); ok && ssa.Value(p) != v {
+			return fa.provablyNonNil(p, at, depth+1)
 		}
 	}
 	// dominated by the true edge of (v != nil) / false edge of (v == nil), compared by term
-	t := fa.Term(v)
 	for _, g := range fa.GuardsOf(at) {
 		if g.Cond.Op != "binop" {
 			continue
